@@ -624,10 +624,7 @@ func (fr *Frame) execSlice(x *ssa.Slice) {
 }
 
 func (e *Exec) substr(s, lo, hi, pc string) string {
-	e.once("ssub", func() {
-		e.emit("(declare-fun ssub (Str (_ BitVec 64) (_ BitVec 64)) Str)")
-		e.emit("(assert (forall ((s Str) (a (_ BitVec 64)) (b (_ BitVec 64)) (i (_ BitVec 64))) (! (=> (and (bvsle #x0000000000000000 i) (bvslt i (bvsub b a))) (= (sat (ssub s a b) i) (sat s (bvadd a i)))) :pattern ((sat (ssub s a b) i)))))")
-	})
+	e.needSsub()
 	if lo == bvLitI(64, 0) && hi == app("slen", s) {
 		return s
 	}
@@ -636,6 +633,13 @@ func (e *Exec) substr(s, lo, hi, pc string) string {
 	e.assume(mkEq(n, t))
 	e.assume(mkImp(pc, mkEq(app("slen", n), bvSub(hi, lo))))
 	e.strInv(n, pc)
+	b := ssubEntry{s: s, lo: lo, hi: hi, name: n}
+	e.ssubReg = append(e.ssubReg, b)
+	if len(e.ssubReg) <= 24 {
+		for _, f := range e.sfromReg {
+			e.ssubLemma(f, b)
+		}
+	}
 	return n
 }
 
@@ -841,10 +845,7 @@ func (fr *Frame) execConvert(x *ssa.Convert) {
 		content := e.fresh("bytes_of_str", arrSort(sBV64, bvSort(8)))
 		e.defArray(content, "i!s", app("sat", v.S, "i!s"))
 		// built-in fact: the string of the bytes of s is s
-		e.once("sfrom", func() {
-			e.emit("(declare-fun sfrom ((Array (_ BitVec 64) (_ BitVec 8)) (_ BitVec 64) (_ BitVec 64)) Str)")
-			e.emit("(assert (forall ((a (Array (_ BitVec 64) (_ BitVec 8))) (o (_ BitVec 64)) (l (_ BitVec 64)) (i (_ BitVec 64))) (! (= (sat (sfrom a o l) i) (select a (bvadd o i))) :pattern ((sat (sfrom a o l) i)))))")
-		})
+		e.needSfrom()
 		e.assume(mkEq(app("sfrom", content, bvLitI(64, 0), app("slen", v.S)), v.S))
 		e.heapSet(fr.st, key, srt, sto(arr, r, content))
 		ln := app("slen", v.S)
@@ -873,16 +874,51 @@ func (fr *Frame) execConvert(x *ssa.Convert) {
 	}
 }
 
-// strOfBytes: the string holding the current contents of a []byte value.
-func (e *Exec) strOfBytes(st *State, v Val, pc string) string {
+// sfromEntry records a string taken from a byte range, so that a later write to another range of the
+// same backing array can state that the string of this range is unchanged (see havocLoc).
+type sfromEntry struct{ base, off, ln, name, arr string }
+
+// ssubEntry records a substring term. For every pair (string taken from bytes, substring) the lemma
+//   s == sfrom(a,o,l) && 0 <= lo <= hi <= l  ==>  ssub(s,lo,hi) == sfrom(a, o+lo, hi-lo)
+// is stated at generation time (strings are determined by their length and characters); a quantified
+// axiom with the same content made unrelated proofs unstable.
+type ssubEntry struct{ s, lo, hi, name string }
+
+func (e *Exec) ssubLemma(f sfromEntry, b ssubEntry) {
+	zero := bvLitI(64, 0)
+	e.assume(mkImp(mkAnd(mkEq(b.s, f.name), app("bvsle", zero, b.lo), app("bvsle", b.lo, b.hi), app("bvsle", b.hi, f.ln)),
+		mkEq(b.name, app("sfrom", f.arr, bvAdd(f.off, b.lo), bvSub(b.hi, b.lo)))))
+}
+
+func (e *Exec) needSsub() {
+	e.once("ssub", func() {
+		e.emit("(declare-fun ssub (Str (_ BitVec 64) (_ BitVec 64)) Str)")
+		e.emit("(assert (forall ((s Str) (a (_ BitVec 64)) (b (_ BitVec 64)) (i (_ BitVec 64))) (! (=> (and (bvsle #x0000000000000000 i) (bvslt i (bvsub b a))) (= (sat (ssub s a b) i) (sat s (bvadd a i)))) :pattern ((sat (ssub s a b) i)))))")
+	})
+}
+
+// needSfrom declares sfrom(a, o, l): the string of the l bytes of a from o.
+func (e *Exec) needSfrom() {
 	e.once("sfrom", func() {
 		e.emit("(declare-fun sfrom ((Array (_ BitVec 64) (_ BitVec 8)) (_ BitVec 64) (_ BitVec 64)) Str)")
 		e.emit("(assert (forall ((a (Array (_ BitVec 64) (_ BitVec 8))) (o (_ BitVec 64)) (l (_ BitVec 64)) (i (_ BitVec 64))) (! (= (sat (sfrom a o l) i) (select a (bvadd o i))) :pattern ((sat (sfrom a o l) i)))))")
 	})
+}
+
+// strOfBytes: the string holding the current contents of a []byte value.
+func (e *Exec) strOfBytes(st *State, v Val, pc string) string {
+	e.needSfrom()
 	srt := arrSort(sRef, arrSort(sBV64, bvSort(8)))
 	arr := e.heapGet(st, elemKey(tByte, 0), srt)
 	n := e.fresh("str_of", sStr)
 	e.assume(mkEq(n, app("sfrom", sel(arr, v.sBase()), v.sOff(), v.sLen())))
+	ent := sfromEntry{base: v.sBase(), off: v.sOff(), ln: v.sLen(), name: n, arr: sel(arr, v.sBase())}
+	e.sfromReg = append(e.sfromReg, ent)
+	if len(e.sfromReg) <= 24 {
+		for _, b := range e.ssubReg {
+			e.ssubLemma(ent, b)
+		}
+	}
 	e.assume(mkImp(pc, mkEq(app("slen", n), v.sLen())))
 	e.strInv(n, pc)
 	return n
